@@ -176,7 +176,12 @@ func c18Payloads(thorough bool) map[string][]byte {
 	for i := range big {
 		big[i] = byte(i * 7)
 	}
-	return map[string][]byte{"empty": {}, "00": {0}, "ffffff": {0xff, 0xff, 0xff}, "all256": all, "1MiB": big}
+	// well beyond any round buffer size: 4 MiB + 1 and 9 MiB (on two names per backend)
+	huge := make([]byte, 9<<20)
+	for i := range huge {
+		huge[i] = byte(i*13 + i>>11)
+	}
+	return map[string][]byte{"empty": {}, "00": {0}, "ffffff": {0xff, 0xff, 0xff}, "all256": all, "1MiB": big, "4MiB+1": huge[:4<<20+1], "9MiB": huge}
 }
 
 type c18Stats struct{ evals, faults int64 }
@@ -193,7 +198,7 @@ func C18(run *report.Run) {
 	cfg := &world.Config{Name: "backends"}
 	names := c18Names()
 	payloads := c18Payloads(run.Thorough())
-	pnames := []string{"empty", "00", "ffffff", "all256", "1MiB"}
+	pnames := []string{"empty", "00", "ffffff", "all256", "1MiB", "4MiB+1", "9MiB"}
 	report1 := func(b backend, sig, what, detail string, desc ...string) {
 		acc.add(cfg, "C18", []explore.Finding{{Sig: "C18|" + b.name[:minInt(len(b.name), 2)] + "|" + sig, What: b.name + ": " + what, Detail: detail}}, append([]string{"backend " + b.name}, desc...))
 	}
@@ -204,6 +209,9 @@ func C18(run *report.Run) {
 			for _, pn := range pnames {
 				if pn == "1MiB" && ni%8 != 0 {
 					continue // the large payload on a spread of names (reported)
+				}
+				if (pn == "4MiB+1" || pn == "9MiB") && ni != 0 && ni != len(names)-1 {
+					continue // the very large payloads on the first and the last name
 				}
 				payload := payloads[pn]
 				p, fs, cleanup := b.mk()
